@@ -152,7 +152,14 @@ def r_iter(ctx):
         for g in F.family(f):
             for b, k, t in paths.ret_assigns(g):
                 s = strip(t)
-                if s[0] == 'call' and s[1].endswith('::is_none') and any(x[0] == 'call' and x[1].endswith('Iterator::next') for x in walk(s)):
+                if s[0] == 'agg' and s[1].endswith('result::Result') and s[2] == 'Ok' and s[3]:
+                    s = strip(s[3][0][1])      # Ok(first.is_none()) after `let mut items = self.iter(rtxn)?`
+                neg = False
+                while s[0] == 'unop' and s[1] == 'Not':
+                    s = strip(s[2])
+                    neg = not neg
+                if s[0] == 'call' and ((s[1].endswith('::is_none') and not neg) or (s[1].endswith('::is_some') and neg)) \
+                        and any(x[0] == 'call' and x[1].endswith('Iterator::next') for x in walk(s)):
                     good = True
         ctx.check(good and any(c.callee.endswith('::iter') for c in f.calls()), rule, path + '/first-is-none', f.loc(), 'empty = iter().next().is_none()',
                   '`%s` does not report iter().next().is_none()' % path)
